@@ -35,6 +35,10 @@ def build_pool(seed, n=60):
     pool.append({'src': 'ADC = 3\nfee:\naddi x1, x0, ADC + 1\nj fee\n', 'compress': True, 'dicts': True})
     # text with backslashes that are no escapes (Python itself warns about those: process-wide warning state must not matter)
     pool.append({'src': 'string 50\\% off\nalign 2\nK9 = 1 + 2\naddi x1, x0, K9\nstring a\\qb \\d\nalign 2\n', 'compress': False, 'dicts': True})
+    # an expression that binds a name while it is evaluated (`:=`); later programs that use or define that name
+    pool.append({'src': 'SIZE = (n := 4) * 4\naddi x1, x0, SIZE\n', 'compress': False, 'dicts': True})
+    pool.append({'src': 'M = n + 1\naddi x1, x0, M\n', 'compress': False, 'dicts': True})
+    pool.append({'src': 'n = 9\naddi x2, x0, n\naddi x3, x0, [q := 5, q + 1][1]\n', 'compress': True, 'dicts': False})
     # every label-moving step at least once (short li, near call, compression, align), four labels, run with a left-over table
     for k in range(2):
         pool.append({'src': 'A0:\nli x5, 1\nA1:\naddi x8, x8, 1\nA2:\ncall A0\nbytes 1 2\nalign 8\nA3:\nj A1\nbeqz x8, A3\ntail A2\nli x6, A2\ndw A3\ndw A1\n',
